@@ -513,6 +513,8 @@ func (in *Interp) lookupMethod(recv iface, meth *types.Func) value {
 		return ctxMethod(o, meth)
 	case *EngErr:
 		return errMethod(o, meth)
+	case *EngHash:
+		return hashMethod(o, meth)
 	}
 	if f := in.prog.LookupMethod(recv.t, meth.Pkg(), meth.Name()); f != nil {
 		return f
